@@ -30,6 +30,17 @@ PREFIX = {
     "comment": "# A comment before everything.\n",
     "comment_nonascii_tab": "# é\tü ✓ \U0001F600\n#\n",
     "docstring_multiline": '"""Provide a dummy meta-model é.\n\nWith more text.\n"""\n',
+    "formfeed_line": "# page one\n\x0c\n# page two\n",
+    "unicode_seps_docstring": '"""Provide a dummy\u2028meta-model\u2029pasted\x85from a PDF.\n"""\n',
+    "ctrl_seps_comment": "# a\x0bb\x1cc\x1dd\x1ee\n",
+    "ws_first_line": "   \n",
+    "indented_comment_first": "    # an indented comment\n",
+}
+
+TAIL = {
+    "full": '\n__version__ = "V1"\n__xml_namespace__ = "https://dummy.com"\n',
+    "no_version": '\n__xml_namespace__ = "https://dummy.com"\n',
+    "none": "\n",
 }
 
 GAP = {0: "", 1: "\n", 3: "\n# just a comment\n\n"}
@@ -46,6 +57,7 @@ PLANT = {
     "unknown_base": "class Planted(Unknown, DBC):\n    y: int\n" + CTOR_INT,
     "bad_lambda": '@invariant(lambda self: self.y @ 2, "Y is fine.")\nclass Planted(DBC):\n    y: int\n' + CTOR_INT,
     "bad_lambda_nonascii": '@invariant(lambda self: len("éé✓") > 0 and self.y @ 2, "Y is fine.")\nclass Planted(DBC):\n    y: int\n' + CTOR_INT,
+    "fstring_lambda": '@invariant(lambda self: len(f"{self.y @ 2}") > 0, "Y is fine.")\nclass Planted(DBC):\n    y: int\n' + CTOR_INT,
     "unknown_type": "class Planted(DBC):\n    y: Unknown\n\n    def __init__(self, y: Unknown) -> None:\n        self.y = y\n",
     "bad_func_body": "@verification\ndef planted(x: int) -> bool:\n    while True:\n        pass\n",
     "enum_bad_literal": "class Planted(Enum):\n    A = 1\n",
@@ -62,7 +74,7 @@ def render_planted(case: Dict[str, Any]) -> str:
     plant = PLANT[case["plant"]]
     if case["tab"]:
         plant = plant.replace("\n        ", "\n\t\t").replace("\n    ", "\n\t")
-    tail = '\n__version__ = "V1"\n__xml_namespace__ = "https://dummy.com"\n'
+    tail = TAIL[case.get("tail", "full")]
     a, b = valid_class("First") + "\n\n", valid_class("Second") + "\n\n"
     gap = GAP[case["gap"]]
     body_plant = gap + plant + "\n\n"
@@ -156,7 +168,7 @@ def candidates_for_node(ti: TextIndex, atok: Any, node: ast.AST, par: Dict[int, 
         pass
     cur: Optional[ast.AST] = par.get(id(node))
     while cur is not None:
-        if isinstance(cur, (ast.stmt, ast.Module)):
+        if isinstance(cur, ast.stmt):
             offs.extend(node_starts(ti, cur))
             try:
                 offs.append(atok.get_text_range(cur)[0])
@@ -187,26 +199,111 @@ LOG: List[Dict[str, Any]] = []
 TEXTS: List[str] = []
 
 
+DEPTH = [0]
+
+
+def preorder(error: Any) -> List[Any]:
+    out = [error]
+    for u in (getattr(error, "underlying", None) or []):
+        out.extend(preorder(u))
+    return out
+
+
+def analyse(atok: Any, error: Any, res: str) -> None:
+    """Walk the Error tree in the order it is rendered and find, for every error, what stands in front of its
+    message in the rendered report: nothing but indentation, or an ``At line L and column C: `` prefix.
+    (Works for a recursive and for an iterative rendering alike.)"""
+    pos = 0
+    for e in preorder(error):
+        lines = [ln.strip() for ln in str(e.message).splitlines() if ln.strip()]
+        if not lines:
+            continue
+        first = lines[0]
+        idx = res.find(first, pos)
+        if idx < 0:
+            LOG.append({"lost": first[:80]})
+            continue
+        ls = res.rfind("\n", 0, idx) + 1
+        before = res[ls:idx]
+        m = re.fullmatch(r"\s*(?:\* )?At line (\d+) and column (\d+): ", before)
+        pos = idx + len(first)
+        LOG.append({"atok": atok, "node": e.node, "L": int(m.group(1)) if m else 0, "C": int(m.group(2)) if m else 0,
+                    "msg": (before.strip() + " " + first)[:120], "prefixed": m is not None, "clean": m is not None or before.strip() in ("", "*")})
+
+
 def install_wrapper() -> None:
     from aas_core_codegen import common
 
     original = common.LinenoColumner.error_message
 
     def wrapped(self: Any, error: Any) -> str:
-        res = original(self, error)
+        DEPTH[0] += 1
         try:
-            if error.node is not None:
-                m = AT_RE.match(res)
-                LOG.append({"atok": self.atok, "node": error.node, "L": int(m.group(1)) if m else -1, "C": int(m.group(2)) if m else -1, "msg": res[:120], "matched": m is not None})
-        except Exception as ex:  # the wrapper must never disturb the code under test
-            LOG.append({"wrapper_error": repr(ex)})
+            res = original(self, error)
+        except Exception as ex:
+            if DEPTH[0] == 1:
+                LOG.append({"raised": "%s: %s" % (type(ex).__name__, str(ex)[:100]), "atok": self.atok, "node": getattr(error, "node", None)})
+            raise
+        finally:
+            DEPTH[0] -= 1
+        if DEPTH[0] == 0:
+            try:
+                analyse(self.atok, error, res)
+            except Exception as ex:  # the wrapper must never disturb the code under test
+                LOG.append({"wrapper_error": repr(ex)})
         return res
 
     common.LinenoColumner.error_message = wrapped  # type: ignore
 
 
+def flush_log(src: str, case: Any, tid: int, text: str, ti: "TextIndex", obs: List[Dict[str, Any]], stats: Dict[str, int]) -> None:
+    """LOG entries -> observation records of kind node / nonode / raised."""
+    pars: Dict[int, Dict[int, ast.AST]] = {}
+    for e in LOG:
+        if "wrapper_error" in e:
+            raise SystemExit("wrapper failed: %s" % e["wrapper_error"])
+        if "lost" in e:
+            stats["lost"] = stats.get("lost", 0) + 1
+            continue
+        atok = e["atok"]
+        ti_e = ti if atok.text == text else TextIndex(atok.text)
+        lead = atok.text[:1] in (" ", "\t", "\x0c")
+        tokenless = e.get("node") is not None and not hasattr(e["node"], "first_token")
+        if id(atok) not in pars:
+            pars[id(atok)] = parents_of(atok.tree)
+        if "raised" in e:
+            rec = base_record("raised", src, case)
+            rec["lead_blank"], rec["tokenless"] = lead, tokenless
+            rec["tid"] = tid
+            rec["msg"] = e["raised"]
+            rec["node"] = type(e["node"]).__name__ if e["node"] is not None else ""
+            rec["nl"] = ti_e.nl
+            obs.append(rec)
+            continue
+        if e["node"] is None:
+            rec = base_record("nonode", src, case)
+            rec["lead_blank"] = lead
+            rec["tid"] = tid
+            rec["L"], rec["C"] = e["L"], e["C"]
+            rec["nl"] = ti_e.nl
+            rec["msg"] = e["msg"]
+            obs.append(rec)
+            stats["unlocated"] = stats.get("unlocated", 0) + 1
+            continue
+        rec = base_record("node", src, case)
+        rec["lead_blank"], rec["tokenless"] = lead, tokenless
+        rec["tid"] = tid
+        rec["L"], rec["C"] = e["L"], e["C"]  # (0, 0) when a located error carries no prefix
+        rec["nl"] = ti_e.nl
+        rec["cands"] = candidates_for_node(ti_e, atok, e["node"], pars[id(atok)])
+        rec["node"] = type(e["node"]).__name__
+        rec["msg"] = e["msg"]
+        obs.append(rec)
+        stats["located_wrapper"] += 1
+
+
 def base_record(kind: str, src: str, case: Any) -> Dict[str, Any]:
-    return {"kind": kind, "L": 0, "C": 0, "nl": [], "cands": [], "txt": [], "positions": [], "src": src, "case": case, "node": "", "msg": "", "tid": -1}
+    return {"kind": kind, "L": 0, "C": 0, "nl": [], "cands": [], "txt": [], "positions": [], "src": src, "case": case, "node": "", "msg": "", "tid": -1, "lead_blank": False, "tokenless": False}
 
 
 def observe_text(text_bytes: bytes, src: str, case: Any, scratch: pathlib.Path, smoke: bool, obs: List[Dict[str, Any]], stats: Dict[str, int]) -> None:
@@ -242,60 +339,58 @@ def observe_text(text_bytes: bytes, src: str, case: Any, scratch: pathlib.Path, 
         if exc is not None:
             stats["exceptions"] += 1
         # wrapper level
-        pars: Dict[int, Dict[int, ast.AST]] = {}
-        for e in LOG:
-            if "wrapper_error" in e:
-                raise SystemExit("wrapper failed: %s" % e["wrapper_error"])
-            atok = e["atok"]
-            if atok.text != text:
-                ti_e = TextIndex(atok.text)
-            else:
-                ti_e = ti
-            if id(atok) not in pars:
-                pars[id(atok)] = parents_of(atok.tree)
-            rec = base_record("node", "%s:%s" % (tool, src), case)
-            rec["tid"] = tid
-            rec["L"], rec["C"] = e["L"], e["C"]
-            rec["nl"] = ti_e.nl
-            rec["cands"] = candidates_for_node(ti_e, atok, e["node"], pars[id(atok)])
-            rec["node"] = type(e["node"]).__name__
-            rec["msg"] = e["msg"]
-            if not e["matched"]:
-                rec["L"], rec["C"] = 0, 0  # a located error without the prefix: Inv_OneBased rejects it
-            obs.append(rec)
+        flush_log("%s:%s" % (tool, src), case, tid, text, ti, obs, stats)
         # stream level
         found = AT_RE.findall(err.getvalue())
         if found:
             allc = candidates_all(ti)
             for (l, c) in found:
                 rec = base_record("stderr", "%s:%s" % (tool, src), case)
+                rec["lead_blank"] = text[:1] in (" ", "\t", "\x0c")
                 rec["tid"] = tid
                 rec["L"], rec["C"] = int(l), int(c)
                 rec["nl"] = ti.nl
                 rec["cands"] = allc
                 obs.append(rec)
         stats["located_stream"] += len(found)
-        stats["located_wrapper"] += len(LOG)
         if rc == 0:
             stats["accepted"] += 1
 
 
-def observe_tables(max_len: int, obs: List[Dict[str, Any]], only: Optional[List[str]] = None) -> None:
+def observe_tables(max_len: int, obs: List[Dict[str, Any]], stats: Dict[str, int], only: Optional[List[str]] = None, alphabet: str = "x\n") -> None:
+    """The real LinenoColumner on every tiny text: (1) a located error for EVERY node of the text through
+    error_message (public behaviour), (2) its offset table when the implementation still has one."""
     import asttokens
     from aas_core_codegen import common
 
-    texts = only if only is not None else ["".join(tup) for n in range(0, max_len + 1) for tup in itertools.product("x\n", repeat=n)]
+    texts = only if only is not None else ["".join(tup) for n in range(0, max_len + 1) for tup in itertools.product(alphabet, repeat=n)]
     for text in texts:
-        if True:
-            rec = base_record("table", "table", text)
-            rec["txt"] = [1 if ch == "\n" else 0 for ch in text]
-            try:
-                atok = asttokens.ASTTokens(text, parse=True)
-                lc = common.LinenoColumner(atok=atok)
-                rec["positions"] = [[int(a), int(b)] for (a, b) in lc.positions]
-            except Exception as ex:
-                rec["msg"] = "%s: %s" % (type(ex).__name__, str(ex)[:100])
-                rec["kind"] = "table_failed"
+        rec = base_record("table", "table", text)
+        rec["lead_blank"] = text[:1] in (" ", "\t", "\x0c")
+        rec["txt"] = [1 if ch == "\n" else 0 for ch in text]
+        try:
+            atok = asttokens.ASTTokens(text, parse=True)
+        except Exception:
+            continue  # not Python: nothing to observe
+        LOG.clear()
+        try:
+            lc = common.LinenoColumner(atok=atok)
+            for node in ast.walk(atok.tree):
+                if isinstance(node, ast.Module) or hasattr(node, "lineno"):
+                    try:
+                        lc.error_message(common.Error(node, "tinymessage"))
+                    except Exception:
+                        pass  # logged by the wrapper as "raised"
+        except Exception as ex:
+            r2 = base_record("raised", "tiny", text)
+            r2["msg"] = "%s: %s" % (type(ex).__name__, str(ex)[:100])
+            obs.append(r2)
+            continue
+        TEXTS.append(text)
+        flush_log("tiny", text, len(TEXTS) - 1, text, TextIndex(text), obs, stats)
+        positions = getattr(lc, "positions", None)
+        if isinstance(positions, list) and all(isinstance(p, tuple) and len(p) == 2 for p in positions):
+            rec["positions"] = [[int(a), int(b)] for (a, b) in positions]
             obs.append(rec)
 
 
@@ -318,9 +413,9 @@ def main() -> None:
     for raw in job.get("texts", []):
         observe_text(raw["text"].encode("utf-8"), "replay", raw.get("case"), scratch / "r", bool(raw.get("smoke")), obs, stats)
     if job.get("table_max") is not None:
-        observe_tables(int(job["table_max"]), obs)
+        observe_tables(int(job["table_max"]), obs, stats, alphabet=job.get("table_alphabet", "x\n"))
     if job.get("table_texts"):
-        observe_tables(0, obs, only=list(job["table_texts"]))
+        observe_tables(0, obs, stats, only=list(job["table_texts"]))
     json.dump({"obs": obs, "stats": stats, "texts": TEXTS}, open(out_path, "w"))
 
 
